@@ -83,7 +83,11 @@ impl Stream for CountedStream {
     type Item = u64;
     fn poll_next(mut self: Pin<&mut Self>, cx: &mut std::task::Context<'_>) -> std::task::Poll<Option<u64>> {
         let r = Pin::new(&mut self.inner).poll_next(cx);
-        if let std::task::Poll::Ready(Some(v)) = &r { rt::emit(&format!("yielded {} {}", self.chan, v)); }
+        match &r {
+            std::task::Poll::Ready(Some(v)) => rt::emit(&format!("yielded {} {}", self.chan, v)),
+            std::task::Poll::Ready(None) => rt::emit(&format!("inend {}", self.chan)),
+            std::task::Poll::Pending => rt::emit(&format!("inpending {}", self.chan)),
+        }
         r
     }
 }
@@ -594,7 +598,7 @@ pub fn run_ops(ctx: &Arc<Ctx>, ops: &[Node], thread: usize) {
                 let guard = FnGuard { chan: *c, ctx: Arc::clone(ctx) };
                 let (c2, ch, ob) = (Arc::clone(ctx), *c, *o);
                 ctx.status.lock().unwrap().insert(thread, (node.id, if through { "pipe" } else { "pipein" }, *o));
-                rt::emit(&format!("inv {} {} {} {}", node.id, if through { "pipe" } else { "pipein" }, o, c));
+                rt::emit(&format!("inv {} {} {} {} {}", node.id, if through { "pipe" } else { "pipein" }, o, c, out.map(|s| s as i64).unwrap_or(-1)));
                 if through {
                     let s = desync::pipe(Arc::clone(&d), stream, move |_p: &mut Payload, item: u64| {
                         let _g = &guard;
@@ -653,7 +657,7 @@ pub fn run_ops(ctx: &Arc<Ctx>, ops: &[Node], thread: usize) {
                 }
             }
             Op::SetDepth(s, n) => {
-                if let Some(stream) = ctx.outs.lock().unwrap().get_mut(s) { stream.set_backpressure_depth(*n); }
+                if let Some(stream) = ctx.outs.lock().unwrap().get_mut(s) { rt::emit(&format!("setdepth {} {}", s, n)); stream.set_backpressure_depth(*n); }
             }
         }
     }
